@@ -367,3 +367,15 @@ pub proof fn lemma_vec_of_one()
 pub open spec fn same_seq(a: Seq<Expression>, b: Seq<Expression>) -> bool {
     a.len() == b.len() && forall|i: int| 0 <= i < a.len() ==> #[trigger] a[i] == b[i]
 }
+
+// `or` commutes in all three values (so an or-chain may be flattened in either order)
+pub proof fn lemma_or_commute(a: Expression, b: Expression)
+    ensures sem_same(Expression::BooleanExpression(Box::new(a), BoolSym::Or, Box::new(b)), Expression::BooleanExpression(Box::new(b), BoolSym::Or, Box::new(a))),
+{
+    reveal(sem_same);
+    let x = Expression::BooleanExpression(Box::new(a), BoolSym::Or, Box::new(b));
+    let y = Expression::BooleanExpression(Box::new(b), BoolSym::Or, Box::new(a));
+    assert forall|ids: Ids, d: DocM| #[trigger] sem3(x, ids, d) == sem3(y, ids, d) by {
+        lemma_binary_commute(sem3(a, ids, d), sem3(b, ids, d));
+    }
+}
